@@ -64,7 +64,7 @@ WHAT = {
 }
 
 EXTRA_HEAD = {
- 1: "From EPD Require Import Hal HalSat HalProofs.\n",
+ 1: "From EPD Require Import Hal HalSat HalProofs Ctl.Ctl Pure.Graphics Pure.GraphicsProofs Proof.Pixel.\n",
  5: "From EPD Require Import Hal HalSat HalProofs.\n",
  11: "From EPD Require Import Hal HalSat HalProofs.\n",
  12: "From EPD Require Import Hal Ctl.Ctl Spec.Checks.\n",
@@ -81,6 +81,23 @@ Theorem C01_encodings_faithful : forall b, b < 256 ->
   Enc.bits_of (bapply BExp4 b) = flat_map (fun x => [false; false; x; x]) (Enc.bits8 b) /\\
   Enc.bits_of (bapply BId b) = Enc.bits8 b.
 Proof. exact Enc.encodings_faithful. Qed.
+
+(** End to end with C03: the controller specification stores the i-th byte of a data run at the address
+    its counter has after i bytes; for a run addressed from the origin over the full panel ([full_geom],
+    which is what the clauses above demand) that is byte column [i mod R], row [i / R].  The frame buffer
+    keeps pixel (x,y) in bit [7 - x mod 8] of byte [byte_of W x y] (C03).  Hence, for EVERY width and
+    height (any row padding): the byte holding pixel (x,y) is stored at byte column x/8 of row y - pixel
+    (x,y) of the drawing is column x, row y of the plane. *)
+Theorem C01_pixel_lands_at_its_place : forall W H x y, x < W -> y < H ->
+  let R := line_bytes W 1 in
+  byte_of W x y < R * H /\\ advance (full_geom R H) (byte_of W x y) = Some (x / 8, y).
+Proof. exact pixel_lands_at_its_place. Qed.
+
+(** After a complete plane the address counter is back at the origin: a second plane written in the
+    same call without re-programming the counter (secondary-plane fills and copies) lands on the same
+    addresses. *)
+Theorem C01_counter_wraps_after_full_plane : forall R H, 0 < R -> 0 < H -> advance (full_geom R H) (R * H) = Some (0, 0).
+Proof. exact full_run_wraps. Qed.
 
 (** The logical byte stream that reaches the controller is the concatenation of what each transport
     call is meant to send, whatever the chunking (C10): so "the payload is [DArg k arg off len]" above
